@@ -304,6 +304,16 @@ ScaleFails(r, net, par, opts, x, u, d) ==
               ~(RIsNaN(ObsY(net, r.rel.base_y, s)) /\ RIsNaN(ObsY(net, r.obs.np.y, s))) /\
               ~RClose(ObsY(net, r.obs.np.y, s), ObsY(net, r.rel.base_y, s), TolX, ScaleOf(net, par, xc, u, d, s))}})
 
+\* ---- explicit engines (C13) on this topology: the selected (recording) engine computed nothing, every variable and
+\* next state has the explicit engine's kind, the selection is untouched
+SpyFails(r) ==
+  UNION {LET sp == r.obs.spy[k]  tag == <<sp.selected, sp.explicit>>
+         IN (IF ~sp.ok THEN {<<"spy.ok", tag, sp.err>>} ELSE {})
+            \cup (IF sp.log # <<>> THEN {<<"spy.selected_engine_computed", tag, sp.log>>} ELSE {})
+            \cup (IF sp.ok /\ ~sp.selection_kept THEN {<<"spy.selection_changed", tag, "">>} ELSE {})
+            \cup (IF sp.ok /\ RangeOf(sp.kinds) \notin {{}, {sp.explicit}} THEN {<<"spy.kinds", tag, sp.kinds>>} ELSE {})
+         : k \in DOMAIN r.obs.spy}
+
 \* ---- the verdict on one record ----------------------------------------------------------------------
 Verdict(r) ==
   LET net == Net(r)  par == Par(r)  opts == r.opts  x == X(r.x)  u == U(r.u)  d == D(r.d)
@@ -316,6 +326,7 @@ Verdict(r) ==
                \cup JacFails(r, net, par, elems)
                \cup SensFails(r, net, par)
                \cup TwinFails(r, net, par, opts, x, u, d)
+               \cup SpyFails(r)
                \cup ScaleFails(r, net, par, opts, x, u, d)
                \cup {<<"step.ok", r.obs.steps[k].engine, r.obs.steps[k].err>> : k \in {k \in DOMAIN r.obs.steps : ~r.obs.steps[k].ok}}
   IN [id |-> r.id, fails |-> fails,
